@@ -170,6 +170,8 @@ class Hub:
             if c in ('std::string::String::new', 'std::string::String::with_capacity', 'std::path::PathBuf::new', 'std::process::id',
                      'std::ffi::OsString::new'):
                 return set()
+            if c in ('blake3::Hash::to_hex',) or c.endswith('::to_hex'):
+                return set()    # lower-case hex digits of a digest (documented by the blake3 API): no separators, no dots
             if c.startswith('core::fmt::rt::Argument::') or c.startswith('std::fmt::Arguments::') or c in (
                     'std::fmt::format', 'std::fmt::Write::write_fmt', 'std::ffi::OsStr::to_owned', 'std::path::Path::as_os_str',
                     'std::ops::Deref::deref', 'std::convert::AsRef::as_ref', 'std::borrow::ToOwned::to_owned', 'std::result::Result::Ok'):
@@ -186,7 +188,8 @@ class Hub:
                      'std::path::Path::with_file_name', 'std::path::PathBuf::from', 'std::path::Path::strip_prefix',
                      'std::path::Path::file_stem', 'std::path::Path::file_name', 'std::path::Path::extension', 'std::ffi::OsStr::to_string_lossy',
                      'std::ffi::OsStr::to_str', 'std::path::Path::to_string_lossy', 'std::path::Path::to_str', 'std::path::Path::display',
-                     'std::option::Option::<T>::unwrap_or_default', 'std::borrow::Cow::<\'_, B>::into_owned', 'std::string::ToString::to_string'):
+                     'std::option::Option::<T>::unwrap_or_default', 'std::borrow::Cow::<\'_, B>::into_owned', 'std::string::ToString::to_string',
+                     'arrayvec::array_string::ArrayString::<CAP>::as_str', 'std::string::String::as_str', 'std::string::String::as_mut_str'):
                 t = body.blocks[o.bb]['term']
                 out = set()
                 for a in t['args']:
@@ -347,6 +350,11 @@ class Hub:
                     kinds.add('control' if lab == {ROOT} else 'live' if lab == {SAFE} or lab == {SAFE, ROOT} else 'other')
             else:
                 kinds.add('other')
+        if kinds == {'control'} and not _raw:
+            # a staging area kept under the control directory (`<root>/.copia/staging/<name>`): the very value content is created
+            # at and later renamed from is a staging path by role
+            if self._sig(dos) in self.staging_values_control():
+                return 'staging'
         if kinds == {'live'} and not _raw:
             # a live path with a suffix appended to its last component (`<dst>.<pid>.copia-tmp` spelled inline) is the same
             # thing the staging-name helper returns - when it is the very value content is created at (a conflict-copy
@@ -365,6 +373,23 @@ class Hub:
         path's own string (not a join)"""
         return frozenset((bp, o.bb) for bp, o in self.deep_origins(body, op, mut_calls=True)
                          if o.kind == 'mutcall' and o.key in ('std::ffi::OsString::push', 'std::string::String::push_str', 'std::string::String::push'))
+
+    @staticmethod
+    def _sig(dos):
+        return frozenset((bp, o.kind, str(o.key), o.bb) for bp, o in dos if o.kind == 'call' and o.key == 'std::path::Path::join')
+
+    def staging_values_control(self):
+        """origin signatures of the paths under the control directory at which content is created"""
+        if getattr(self, '_staging_c', None) is None:
+            self._staging_c = set()
+            for b, bb, c in self.cg.call_sites(lambda c: c in tables.CONTENT_CREATORS and not c.endswith('OpenOptions::open'), within=self.graph):
+                t = b.blocks[bb]['term']
+                pos = tables.CONTENT_CREATORS[c]
+                if pos < len(t['args']) and self.path_class(b, t['args'][pos], _raw=True) == 'control':
+                    sg = self._sig(self.deep_origins(b, t['args'][pos]))
+                    if sg:
+                        self._staging_c.add(sg)
+        return self._staging_c
 
     def staging_values(self):
         if getattr(self, '_staging', None) is None:
